@@ -12,7 +12,8 @@ LEAN_MODULES = ["FimVerif.Proofs.C08"]
 P = "FimVerif.C08."
 THEOREMS = [P + t for t in (
     "remove_frame", "deleteAll_minus", "mem_cpDel", "removeCp_exact", "removeNs_exact", "removeComp_exact",
-    "removeNodeG_exact", "removeLink_exact",
+    "removeNodeG_exact", "removeLink_exact", "removeNodeApi_exact", "removeFacilityApi_exact", "removeSwitchApi_exact",
+    "removeComponentApi_exact",
 )]
 TRUSTED_BASE = [
     "Model/Remove.lean mirrors by hand remove_cp_and_links / remove_ns_with_cps_and_links / remove_component_with_nss_cps_and_links / "
